@@ -78,6 +78,8 @@ def do_test(ids):
         try:
             ra = sh("git apply %s" % os.path.join(dst, "patch.diff"), cwd=d)
             if ra.returncode != 0:
+                ra = sh("git apply --3way %s" % os.path.join(dst, "patch.diff"), cwd=d)
+            if ra.returncode != 0:
                 print(sid, "PATCH DOES NOT APPLY", ra.stderr[:300])
                 results[sid] = None
                 continue
